@@ -30,16 +30,16 @@ var (
 )
 
 type txCase struct {
-	typ              int // 0 legacy, 1 access list, 2 dynamic
-	nonce, gas       uint64
-	price, tip, cap  *big.Int
-	to               *common.Address
-	value            *big.Int
-	data             []byte
-	al               ethtypes.AccessList
-	alName           string
-	chain            *big.Int // nil = unprotected (legacy only)
-	key              int
+	typ             int // 0 legacy, 1 access list, 2 dynamic
+	nonce, gas      uint64
+	price, tip, cap *big.Int
+	to              *common.Address
+	value           *big.Int
+	data            []byte
+	al              ethtypes.AccessList
+	alName          string
+	chain           *big.Int // nil = unprotected (legacy only)
+	key             int
 }
 
 func (c txCase) String() string {
@@ -380,6 +380,35 @@ func checkCase(res *engine.Result, txConfig client.TxConfig, c txCase, key []byt
 	if err := m2.ValidateBasic(); err != nil {
 		viol("roundtrip-validate", "the decoded message fails ValidateBasic", map[string]any{"err": err.Error()})
 	}
+	// the sender the message itself reports (GetSender / GetSigners) is the one recoverable from the
+	// signature - whatever the unsigned From field of the envelope says, and whatever the message
+	// object held before it was refilled
+	if c.chain != nil {
+		want, werr := signer.Sender(tx)
+		foreign := common.HexToAddress("0x00000000000000000000000000000000000000f0")
+		for _, from := range []string{"", foreign.Hex()} {
+			m2.From = from
+			got, gerr := m2.GetSender(c.chain)
+			if (gerr == nil) != (werr == nil) || got != want {
+				viol("msg-sender", "the sender reported by the decoded message differs from the one recoverable from the signature", map[string]any{"from_field": from, "got": got.Hex(), "want": want.Hex()})
+			}
+		}
+		// refill: the same message object first holds another signer's transaction
+		otherKey, _ := crypto.ToECDSA(bytes.Repeat([]byte{0x5a}, 32))
+		if other, err := ethtypes.SignTx(c.build(), signer, otherKey); err == nil {
+			re := &evmtypes.MsgEthereumTx{}
+			ob, _ := other.MarshalBinary()
+			tb, _ := tx.MarshalBinary()
+			if re.UnmarshalBinary(ob) == nil {
+				_, _ = re.GetSender(c.chain)
+				if re.UnmarshalBinary(tb) == nil {
+					if got, gerr := re.GetSender(c.chain); (gerr == nil) != (werr == nil) || got != want {
+						viol("msg-sender", "a refilled message reports the sender of the transaction it held before", map[string]any{"got": got.Hex(), "want": want.Hex()})
+					}
+				}
+			}
+		}
+	}
 	res.Outcomes["roundtrip-ok"]++
 	res.Nontrivial[cas] = true
 	if len(res.Samples) < 3 {
@@ -393,7 +422,7 @@ func Run(tier string) int {
 	res.TracesImpl = res.Evaluations
 	return engine.Finish(res, engine.Meta{
 		Property: Prop, Tier: tier, Level: "model_checking", Start: start,
-		Rule: "full cartesian grid of field values for the three tx types x 2 signing keys x chain ids through FromEthereumTx -> ValidateBasic -> BuildTx -> TxEncoder -> TxDecoder -> GetMsgs -> AsTransaction; non-trivial = case accepted by ValidateBasic and carried through the Cosmos encoding",
+		Rule:        "full cartesian grid of field values for the three tx types x 2 signing keys x chain ids through FromEthereumTx -> ValidateBasic -> BuildTx -> TxEncoder -> TxDecoder -> GetMsgs -> AsTransaction; non-trivial = case accepted by ValidateBasic and carried through the Cosmos encoding",
 		Assumptions: []string{"ValidateBasic-rejected cases (fee overflow, tip > cap, gas 0 or > MaxInt64) are compared only for the wrap/unwrap leg; reference predicate for the verdict is stated in the driver"},
 	})
 }
